@@ -34,6 +34,7 @@ type Env struct {
 	noUnfold bool        // do not emit unfoldings of recursive spec functions
 	unfolds  *[]unfoldT  // collects unfolding templates for terms with bound variables
 	cst    *State // state supplying local cells (current even inside old()); nil = st
+	capOld bool   // closure contract: inside old(), captured variables denote their values in the old state
 }
 
 func (e *Env) with(vars map[string]TV) *Env {
@@ -467,6 +468,16 @@ func (e *Env) ident(name string) (TV, error) {
 	// old() parameters denote their entry values
 	if e.fr != nil {
 		if e.inOld {
+			// contract of a closure: a captured variable is shared state, not a
+			// local of the closure; inside old() it has its value in the old
+			// state (entry of the closure / state before the call)
+			if e.capOld && e.st != nil {
+				if cell, typ := e.fr.cellByName(name, e.st); cell != nil && isCapturedCell(cell) {
+					if t, ok := e.st.cells[cell]; ok {
+						return TV{t, typ}, nil
+					}
+				}
+			}
 			for _, p := range e.fr.fn.Params {
 				if p.Name() == name {
 					return TV{e.fr.vals[p], p.Type()}, nil
@@ -1328,6 +1339,19 @@ func exprString(x Expr) string {
 		return "(" + exprString(x.C) + " ? " + exprString(x.A) + " : " + exprString(x.B) + ")"
 	}
 	return fmt.Sprintf("%v", x)
+}
+
+// isCapturedCell reports whether a cell is a variable shared between a
+// function and its closures: a free variable of the closure being verified, or
+// a local of the caller that a closure captures.
+func isCapturedCell(cell ssa.Value) bool {
+	switch c := cell.(type) {
+	case *ssa.FreeVar:
+		return true
+	case *ssa.Alloc:
+		return isCapturedAtAll(c)
+	}
+	return false
 }
 
 // cellByName finds the live local variable cell with the given source name.
